@@ -736,17 +736,21 @@ class InterpolatableFunction(ABC):
         else:
             appendPointsMax = np.array([])
 
-        appendValuesMin = np.asarray(self._functionImplementation(appendPointsMin))
-        appendValuesMax = np.asarray(self._functionImplementation(appendPointsMax))
-
         # Ordering is important since interpolation needs the x values to be ordered.
-        # This works, but could be made safer by rearranging the resulting arrays:
-        xRange = np.concatenate(
-            (appendPointsMin, self._interpolationPoints, appendPointsMax)
-        )
-        fxRange: np.ndarray = np.concatenate(
-            (appendValuesMin, np.asarray(self._interpolationValues), appendValuesMax)
-        )
+        # This works, but could be made safer by rearranging the resulting arrays.
+        # The function is only evaluated on non-empty blocks: implementations need
+        # not handle (or return a correctly shaped result for) empty input.
+        xBlocks = [np.asarray(self._interpolationPoints)]
+        fxBlocks = [np.asarray(self._interpolationValues)]
+        if appendPointsMin.size > 0:
+            xBlocks.insert(0, appendPointsMin)
+            fxBlocks.insert(0, np.asarray(self._functionImplementation(appendPointsMin)))
+        if appendPointsMax.size > 0:
+            xBlocks.append(appendPointsMax)
+            fxBlocks.append(np.asarray(self._functionImplementation(appendPointsMax)))
+
+        xRange = np.concatenate(xBlocks)
+        fxRange: np.ndarray = np.concatenate(fxBlocks)
 
         self.newInterpolationTableFromValues(xRange, fxRange)
 
